@@ -18,7 +18,7 @@ B = gkdi.B
 RULE = (
     "complete enumeration of clock values: every offset in [-64,+64] ticks around L2, L1 and L0 interval boundaries for 12 epochs "
     "(L0 = 316..512, i.e. 1970..2200) x sub-tick residues {0,99} ns x {sync, async}; thorough adds every L2 boundary 1970-2200 at "
-    "offsets {-1,0}. Each boundary is then crossed again backwards and in zig-zag order on the same cache. Also a cache holding only seed keys obtained from a (reference) DC: boundary grid, and a grid of (primed envelope position incl. shapes without an L1 key) x (local clock position slightly behind/ahead). A case is non-trivial when the real protect API returned a blob whose key "
+    "offsets {-1,0}. A clock that advances on every read (torn reads), a walk over 140 consecutive intervals and jumps by whole L0/L1 periods on one cache are also enumerated. Each boundary is then crossed again backwards and in zig-zag order on the same cache. Also a cache holding only seed keys obtained from a (reference) DC: boundary grid, and a grid of (primed envelope position incl. shapes without an L1 key) x (local clock position slightly behind/ahead). A case is non-trivial when the real protect API returned a blob whose key "
     "identifier was parsed by the reference reader; distinct = distinct (t, api, source)."
 )
 ASSUME = [
@@ -51,6 +51,9 @@ def shards(tier: str, seed: int):
         out.append(["seedkeys"])
         out.append(["seedgrid"])
     out.append(["real"])
+    out.append(["ticking"])
+    out.append(["walk", 0])
+    out.append(["walk", 1])
     if tier == "thorough":
         first = gkdi.EPOCH_FILETIME // B + 1
         last = (gkdi.EPOCH_FILETIME + int(230 * 365.25 * 86400 * 10**7)) // B
@@ -189,6 +192,59 @@ def run_shard(shard, tier, seed, acc) -> None:
         acc.ev(n)
         acc.nt_counted(n)
         acc.sample({"cache primed with the envelope for": [ep, 0, 20], "clock at": [ep, 0, 19], "expected": "names (364,0,19) or tries the network"})
+    elif kind == "ticking":
+        # the clock moves while the call runs: every read returns a later instant; the blob must name the interval of SOME instant
+        # between the first and the last read (never a mixture of fields taken from different instants)
+        rk, cache, mod = _setup(seed)
+        n = 0
+        for ep in (364, 511):
+            for base in (ep * 1024 * B, ep * 1024 * B + 7 * 32 * B, ep * 1024 * B + 7 * 32 * B + 9 * B):
+                for start in range(-6, 3):
+                    for step in (1, 2, 3):
+                        for api in ("sync", "async"):
+                            with seams.ticking_clock(base + start, step) as reads:
+                                try:
+                                    f = mod.ncrypt_protect_secret if api == "sync" else mod.async_ncrypt_protect_secret
+                                    r = f(b"x", SID, root_key_identifier=rk.rkid, cache=cache)
+                                    blob = r if api == "sync" else drive(r)
+                                except Exception as e:  # noqa: BLE001
+                                    acc.violate(f"ticking.exc.{type(e).__name__}", ["ticking", base, start, step, api], {"exc": repr(e)})
+                                    continue
+                            n += 1
+                            kid = gkdi.unpack_keyid(cms.decode(bytes(blob)).keyid)
+                            got = (kid.l0, kid.l1, kid.l2)
+                            lo, hi = (reads[0], reads[-1]) if reads else (base + start, base + start)
+                            ok = {gkdi.interval(x) for x in (lo, hi)} | ({gkdi.interval(base)} if lo <= base <= hi else set())
+                            if reads and got not in ok:
+                                acc.violate("ticking.interval", ["ticking", base, start, step, api], {"named": got, "clock_reads": len(reads), "first_read": gkdi.interval(lo), "last_read": gkdi.interval(hi)})
+                            acc.outcome("ticking:" + ("ok" if got in ok else "viol") if reads else "ticking:clock-not-read")
+        acc.ev(n)
+        acc.nt_counted(n)
+        acc.sample({"advancing clock": "starts -6..+2 ticks around L0/L1/L2 boundaries, +1..3 ticks per read"})
+    elif kind == "walk":
+        # one cache, the clock walks over many consecutive intervals (and jumps by whole L1 / L0 periods): nothing derived for an
+        # earlier interval may be reused for another one
+        rk, _, mod = _setup(seed)
+        cache = seams.make_cache(rk)
+        n = 0
+        t0 = 363 * 1024 * B + 2 * 32 * B + 20 * B + 1234
+        if shard[1] == 0:
+            times = [t0 + k * B + d for k in range(0, 140) for d in (0, B // 2)]
+        else:
+            times = []
+            for k in range(0, 6):
+                times += [t0 + k * 1024 * B, t0 + k * 32 * B, t0 + k * 1024 * B + 5 * B, t0 + k * 33 * B, t0 + k * 31 * B]
+            times = times + times[::-1]
+        for tt in times:
+            for api in ("sync",) if shard[1] == 0 else ("sync", "async"):
+                v, oc = case(seed, tt, 0, api, cache=cache)
+                n += 1
+                acc.outcome("walk:" + oc)
+                if v:
+                    acc.violate("walk." + v[0], ["shard", shard, tier], {**v[1]}, size=10**5)
+        acc.ev(n)
+        acc.nt_counted(n)
+        acc.sample({"walk": "140 consecutive L2 intervals on one cache" if shard[1] == 0 else "jumps by whole L0 / L1 periods (same L1,L2 in another L0) forth and back"})
     elif kind == "real":
         now = time.time_ns() // 100 + gkdi.EPOCH_FILETIME
         rk, cache, mod = _setup(seed)
@@ -231,6 +287,14 @@ def replay(case_, seed, acc) -> None:
             v, oc = case(seed, tt, 0, api, cache=cache, source="seed")
     elif case_[0] == "seedt":
         v, oc = case(seed, int(case_[2]), 0, case_[3], cache=_seed_cache(seed, int(case_[1])), source="seed")
+    elif case_[0] == "ticking":
+        run_shard(["ticking"], "quick", seed, acc)
+        for k in list(acc.violations):
+            acc.violations[k] = [e for e in acc.violations[k] if e["case"] == case_]
+            if not acc.violations[k]:
+                del acc.violations[k]
+        acc.violation_count = sum(len(x) for x in acc.violations.values())
+        return
     else:
         raise AssertionError(case_)
     acc.ev()
